@@ -26,6 +26,19 @@ import (
 	"time"
 )
 
+// RepoDir is the source tree of zrnt this binary was built from: the replace target recorded in the build info
+// (so source scans look at the same tree as the compiled code), /repo if that is not available.
+var RepoDir = func() string {
+	if bi, ok := debug.ReadBuildInfo(); ok {
+		for _, d := range bi.Deps {
+			if d.Path == "github.com/protolambda/zrnt" && d.Replace != nil && strings.HasPrefix(d.Replace.Path, "/") {
+				return d.Replace.Path
+			}
+		}
+	}
+	return "/repo"
+}()
+
 // Root is the directory of the verification framework (evidence, known findings); /verif unless VERIF_ROOT is set.
 var Root = func() string {
 	if r := os.Getenv("VERIF_ROOT"); r != "" {
